@@ -68,10 +68,13 @@ NumI(s, v)  == [t |-> "num", s |-> s, v |-> Fin(v)]
 SepI(s)     == [t |-> "sep", s |-> s, v |-> Bad]
 CmtI(s)     == [t |-> "cmt", s |-> s, v |-> Bad]
 
-HeaderItems(g, frame) ==
-    << NumI(YText(frame, South(g)), South(g)), NumI(YText(frame, g.n), g.n),
-       NumI(XText(frame, g.w), g.w), NumI(XText(frame, East(g)), East(g)),
-       NumI(DText(frame, g.dy), g.dy), NumI(DText(frame, g.dx), g.dx) >>
+\* the header under a spelling (Grid.tla: Spellings): the two bounds of an axis exchange their slots
+HeaderItemsSp(g, frame, sp) ==
+    LET s == NumI(YText(frame, South(g)), South(g))  n == NumI(YText(frame, g.n), g.n)
+        w == NumI(XText(frame, g.w), g.w)            e == NumI(XText(frame, East(g)), East(g))
+    IN << IF HasNS(sp) THEN n ELSE s, IF HasNS(sp) THEN s ELSE n, IF HasEW(sp) THEN e ELSE w, IF HasEW(sp) THEN w ELSE e,
+          NumI(DText(frame, g.dy), g.dy), NumI(DText(frame, g.dx), g.dx) >>
+HeaderItems(g, frame) == HeaderItemsSp(g, frame, "asc")
 RowItems(g, r, scale) ==
     Flatten([c \in 1..g.cols |-> [b \in 1..g.bands |-> NumI(ValueText(g.nodes[r][c][b], scale), g.nodes[r][c][b])]])
 
@@ -83,8 +86,8 @@ Join(items, sep) == IF Len(items) <= 1 THEN items ELSE <<items[1], SepI(sep)>> \
 Layouts == 0..3
 Eol(layout)      == IF layout = 2 THEN "crlf" ELSE "lf"
 FinalEol(layout) == layout \in {0, 1}
-GravsoftLines(g, frame, scale, layout) ==
-    LET H == HeaderItems(g, frame)
+GravsoftLinesSp(g, frame, scale, layout, sp) ==
+    LET H == HeaderItemsSp(g, frame, sp)
         R == [r \in 1..g.rows |-> RowItems(g, r, scale)]
         All == H \o Flatten(R)
     IN CASE layout = 0 -> << Join(H, " "), <<>> >> \o [r \in 1..g.rows |-> <<SepI("    ")>> \o Join(R[r], "  ")]
@@ -93,6 +96,7 @@ GravsoftLines(g, frame, scale, layout) ==
                           \o << <<CmtI("# end 42")>> >>
          [] layout = 2 -> [i \in 1..Len(All) |-> <<All[i]>>]
          [] layout = 3 -> << <<>>, <<>>, Join(All, " ") >>
+GravsoftLines(g, frame, scale, layout) == GravsoftLinesSp(g, frame, scale, layout, "asc")
 
 LineText(line) == Concat([i \in 1..Len(line) |-> line[i].s])
 TextOf(lines) == [i \in 1..Len(lines) |-> LineText(lines[i])]
@@ -139,16 +143,20 @@ Overview(n) == << IntR("NUM_OREC", 11), IntR("NUM_SREC", 11), IntR("NUM_FILE", n
                   StrR("VERSION", "GVH"), StrR("SYSTEM_F", "MODEL_F"), StrR("SYSTEM_T", "MODEL_T"),
                   RealR("MAJOR_F", Fin(0)), RealR("MINOR_F", Fin(0)), RealR("MAJOR_T", Fin(0)), RealR("MINOR_T", Fin(0)) >>
 \* longitudes are written west-positive: the record holds -x
-SubHeader(g) == << StrR("SUB_NAME", g.name), StrR("PARENT", g.parent), StrR("CREATED", "20260927"), StrR("UPDATED", "20260927"),
-                   RealR("S_LAT", Fin(South(g))), RealR("N_LAT", Fin(g.n)),
-                   RealR("E_LONG", Fin(-East(g))), RealR("W_LONG", Fin(-g.w)),
+SubHeaderSp(g, sp) ==
+                << StrR("SUB_NAME", g.name), StrR("PARENT", g.parent), StrR("CREATED", "20260927"), StrR("UPDATED", "20260927"),
+                   RealR("S_LAT", Fin(IF HasNS(sp) THEN g.n ELSE South(g))), RealR("N_LAT", Fin(IF HasNS(sp) THEN South(g) ELSE g.n)),
+                   RealR("E_LONG", Fin(IF HasEW(sp) THEN -g.w ELSE -East(g))), RealR("W_LONG", Fin(IF HasEW(sp) THEN -East(g) ELSE -g.w)),
                    RealR("LAT_INC", Fin(g.dy)), RealR("LONG_INC", Fin(g.dx)), IntR("GS_COUNT", g.rows * g.cols) >>
+SubHeader(g) == SubHeaderSp(g, "asc")
 \* nodes from the south-east corner, westwards, then northwards
 SubNodes(g) == [k \in 1..(g.rows * g.cols) |->
                    LET r == g.rows - ((k - 1) \div g.cols)   c == g.cols - ((k - 1) % g.cols)
                    IN NodeR(g.nodes[r][c][1], g.nodes[r][c][2])]
-EncodeNtv2(f, order) ==
-    Overview(Len(f)) \o Flatten([k \in 1..Len(order) |-> SubHeader(f[order[k]]) \o SubNodes(f[order[k]])]) \o <<EndR>>
+\* spells[i]: the spelling of the header of sub-grid i (the node records stay in file order)
+EncodeNtv2Sp(f, order, spells) ==
+    Overview(Len(f)) \o Flatten([k \in 1..Len(order) |-> SubHeaderSp(f[order[k]], spells[order[k]]) \o SubNodes(f[order[k]])]) \o <<EndR>>
+EncodeNtv2(f, order) == EncodeNtv2Sp(f, order, [i \in 1..Len(f) |-> "asc"])
 ByteLen(recs) == 16 * Len(recs)
 \* byte offsets (0-based) of the header records: the overview and every sub-grid header
 HeaderOffsets(f, order) ==
@@ -221,6 +229,8 @@ Trunc(n)            == [t |-> "trunc",   a |-> n,   b |-> 0,   c |-> 0, fs |-> "
 Flip(off, bit)      == [t |-> "flip",    a |-> off, b |-> bit, c |-> 0, fs |-> "", cl |-> ""]
 Corrupt(field, class, k) == [t |-> "corrupt", a |-> 0, b |-> 0, c |-> k, fs |-> field, cl |-> class]
 NoFault             == [t |-> "none",    a |-> 0,   b |-> 0,   c |-> 0, fs |-> "", cl |-> ""]
+\* the file as it is: the queries (points x margins) on the undamaged grid
+Intact              == [t |-> "intact",  a |-> 0,   b |-> 0,   c |-> 0, fs |-> "", cl |-> ""]
 
 \* value classes a damaged field may take
 IntClasses  == {"zero", "minus", "less", "more", "huge"}
@@ -292,17 +302,19 @@ EffectsNtv2(recs, ft) ==
                            {recs} \cup {DamageRecord(recs, i, c) : c \in FieldClasses(recs[i])}
                            \cup (IF ft.a % 16 < 8 THEN {[recs EXCEPT ![i] = [@ EXCEPT !.key = "?"]]} ELSE {})
       [] ft.t = "corrupt" -> {CorruptNtv2(recs, ft.fs, ft.cl, ft.c)}
+      [] ft.t = "intact"  -> {recs}
 
 FaultsNtv2(f, order) ==
     LET recs == EncodeNtv2(f, order) IN
-    {Trunc(n) : n \in 0..(ByteLen(recs) - 1)}
+    {Intact} \cup {Trunc(n) : n \in 0..(ByteLen(recs) - 1)}
     \cup {Flip(off, bit) : off \in HeaderOffsets(f, order), bit \in 0..7}
     \cup UNION {{Corrupt(fc[1], c, 0) : c \in fc[2]} : fc \in Ntv2Fields}
     \cup UNION {{Corrupt(fc[1], c, k) : c \in fc[2]} : fc \in Ntv2SubFields, k \in 1..Len(order)}
     \cup {Corrupt(x, "", k) : x \in Ntv2Combined, k \in 1..Len(order)}
 
 \* -- Gravsoft: damage to token i of the visible numbers (1..6: the header)
-GravClasses == {"zero", "neg", "bad", "inf", "plus", "eq"}
+\* frac: half an increment more - the extent is no whole number of cells any longer
+GravClasses == {"zero", "neg", "bad", "inf", "plus", "eq", "frac"}
 GravFileClasses == {"drop_last", "extra", "header_only", "five_numbers"}
 \* position (line, item) of the i-th visible number
 NumPositions(lines) ==
@@ -321,6 +333,7 @@ CorruptGravsoft(lines, i, class) ==
       [] class = "bad"  -> SetNum(lines, i, Bad)
       [] class = "inf"  -> SetNum(lines, i, Inf)
       [] class = "plus" -> SetNum(lines, i, Fin(N[i].v + N[5].v))
+      [] class = "frac" -> SetNum(lines, i, Fin(N[i].v + N[5].v \div 2))
       [] class = "eq"   -> SetNum(lines, i, N[partner])
 DropNums(lines, keep) ==      \* keep only the first `keep` visible numbers
     LET P == NumPositions(lines) IN
@@ -338,7 +351,8 @@ CorruptGravsoftFile(lines, class) ==
 \* other token (another number, or no number at all), or removes the rest.
 EffectsGravsoft(lines, ft) ==
     LET n == Len(NumsOf(lines)) IN
-    CASE ft.t = "corrupt" /\ ft.c = 0 -> {CorruptGravsoft(lines, ft.a, ft.cl)}
+    CASE ft.t = "intact" -> {lines}
+      [] ft.t = "corrupt" /\ ft.c = 0 -> {CorruptGravsoft(lines, ft.a, ft.cl)}
       [] ft.t = "corrupt"             -> {CorruptGravsoftFile(lines, ft.cl)}
       [] ft.t = "trunc" ->   \* some prefix of the numbers survives, the last one possibly damaged
             UNION {{StripPos(DropNums(lines, k))} \cup
@@ -354,8 +368,64 @@ HeaderSpan(lines, layout) ==
         inline == SumSeq([i \in 1..q[2] |-> Len(lines[q[1]][i].s)])
     IN before + inline
 FaultsGravsoft(lines, layout) ==
-    {Trunc(n) : n \in 0..(TextLen(lines, layout) - 1)}
+    {Intact} \cup {Trunc(n) : n \in 0..(TextLen(lines, layout) - 1)}
     \cup {Flip(off, bit) : off \in 0..(HeaderSpan(lines, layout) - 1), bit \in 0..7}
     \cup {[Corrupt("token", c, 0) EXCEPT !.a = i] : i \in 1..6, c \in GravClasses}
     \cup {Corrupt("file", c, 1) : c \in GravFileClasses}
+
+\* ---- headers with exchanged bounds ---------------------------------------------------
+\* The strict rules above refuse them (n <= s, e <= w).  A reader may instead take them as a spelling of
+\* the same extent (Grid.tla: Spellings, Readings).  The admissible outcomes of decoding such a file are
+\* therefore: an error, or the grid the file means under ONE reading - and under every reading the grid
+\* reproduces the node values written in the file at its nodes.  Nothing else (in particular not a grid
+\* that contains the extent but interpolates values found in no reading).
+SpellOf(s, n, w, e) == CASE s > n /\ w > e -> "nsew" [] s > n -> "ns" [] w > e -> "ew" [] OTHER -> "asc"
+AdmissibleGravsoft(lines) ==
+    LET N == NumsOf(lines) IN
+    IF Len(N) < 6 \/ \E i \in 1..Len(N) : ~IsFin(N[i]) THEN {DecodeGravsoft(lines)}
+    ELSE LET sp == SpellOf(N[1].v, N[2].v, N[3].v, N[4].v)
+             l1 == IF HasNS(sp) THEN SetNum(SetNum(lines, 1, N[2]), 2, N[1]) ELSE lines
+             l2 == IF HasEW(sp) THEN SetNum(SetNum(l1, 3, N[4]), 4, N[3]) ELSE l1
+             d  == DecodeGravsoft(l2)
+         IN IF sp = "asc" THEN {d}
+            ELSE {Err} \cup (IF d.ok THEN {[d EXCEPT !.subs[1] = Under(@, rd)] : rd \in Readings(sp)} ELSE {})
+
+\* NTv2: S_LAT > N_LAT, or E_LONG and W_LONG exchanged (west-positive: normally E_LONG < W_LONG)
+SpellsNtv2(recs) ==
+    [k \in 1..recs[3].i |-> LET q == SubStart(recs, k) IN
+        SpellOf(recs[q + 4].a.v, recs[q + 5].a.v, -recs[q + 7].a.v, -recs[q + 6].a.v)]
+NormaliseNtv2(recs) ==
+    LET sp == SpellsNtv2(recs)
+        RECURSIVE N(_, _)
+        N(r, k) == IF k > recs[3].i THEN r
+                   ELSE LET q  == SubStart(recs, k)
+                            r1 == IF HasNS(sp[k]) THEN [r EXCEPT ![q + 4] = [@ EXCEPT !.a = r[q + 5].a], ![q + 5] = [@ EXCEPT !.a = r[q + 4].a]] ELSE r
+                            r2 == IF HasEW(sp[k]) THEN [r1 EXCEPT ![q + 6] = [@ EXCEPT !.a = r1[q + 7].a], ![q + 7] = [@ EXCEPT !.a = r1[q + 6].a]] ELSE r1
+                        IN N(r2, k + 1)
+    IN N(recs, 1)
+\* (for well-typed files with at most one spelled sub-grid header; d.subs is in file order)
+AdmissibleNtv2(recs) ==
+    LET sp == SpellsNtv2(recs)  K == {k \in 1..recs[3].i : sp[k] # "asc"} IN
+    IF K = {} THEN {DecodeNtv2(recs)}
+    ELSE LET d == DecodeNtv2(NormaliseNtv2(recs))  k == CHOOSE k \in K : TRUE IN
+         {Err} \cup (IF d.ok /\ Cardinality(K) = 1 THEN {[d EXCEPT !.subs[k] = Under(@, rd)] : rd \in Readings(sp[k])} ELSE {})
+
+\* ---- the constructor both readers end in ----------------------------------------------
+\* BaseGrid::plain(header, nodes, offset): `nodes` holds `len` values, the grid starts at `offset`
+\* (none given: 0).  A call [pad, cut, off]: the vector is `pad` foreign values followed by the
+\* grid's values without the last `cut`; off = -1: no offset given, off = -2: the largest index.
+\* The node (r, c, b) is read at offset + bands * (cols * r + c) + b - 1: a grid may be returned and
+\* queried only if that lies inside the vector for every node - otherwise the outcome is an error, or a
+\* grid whose queries nevertheless do not read out of bounds.
+PlainCalls(elements) ==
+    {[pad |-> x[1], cut |-> x[2], off |-> x[3]] :
+        x \in {<<0, 0, -1>>, <<0, 0, 0>>, <<0, 0, 1>>, <<0, 0, 3>>, <<0, 0, elements>>, <<0, 0, -2>>,
+               <<0, elements, -1>>, <<0, elements, 0>>, <<0, elements, 1>>, <<0, 1, -1>>, <<0, 1, 0>>,
+               <<2, 0, 2>>, <<2, 0, 0>>, <<2, 0, 1>>, <<2, 0, 3>>, <<2, 1, 2>>, <<5, 0, 5>>, <<5, 0, -2>>}}
+PlainLen(c, elements) == c.pad + elements - c.cut
+PlainOff(c) == IF c.off = -1 THEN 0 ELSE c.off
+NodeIndex(g, c, r, cc, b) == PlainOff(c) + g.bands * (g.cols * r + cc) + b - 1          \* 0-based, r, cc from 0
+PlainConsistent(g, c) == c.off # -2 /\ PlainOff(c) + g.rows * g.cols * g.bands <= PlainLen(c, g.rows * g.cols * g.bands)
+\* the values found at the node positions are the grid's own: the grid starts where the offset says
+PlainReads(g, c) == PlainConsistent(g, c) /\ PlainOff(c) = c.pad /\ c.cut = 0
 =============================================================================
